@@ -3,6 +3,7 @@
 package c04
 
 import (
+	"fmt"
 	"math"
 	"regexp"
 	"strconv"
@@ -25,6 +26,35 @@ type Case struct {
 	Bits    []uint64 // float64 bit patterns of the values (1 or 2 results with the same unit)
 	Other   string   // a second, unrelated unit on the same line ("" = none)
 	DupMeta bool     // the unit metadata is declared a second time under the base unit's name
+	Form    int      // how the values are written: 0 shortest 'g', 1 plain decimal digits ('f'), 2 'e' with 17 digits
+	Pad     int      // number of further, unrelated measurements on each line
+	Pos     []int    // per value: how many of the Pad measurements come before the one under test
+}
+
+// spell writes f in the form the case asks for; every form reads back as exactly f.
+func (c Case) spell(f float64) string {
+	if math.IsNaN(f) || math.IsInf(f, 0) {
+		return fmtFloat(f)
+	}
+	switch c.Form {
+	case 1:
+		if a := math.Abs(f); a == 0 || (a >= 1e-5 && a < 1e22) {
+			if f == math.Trunc(f) {
+				return strconv.FormatFloat(f, 'f', 0, 64) // every digit of an integer, e.g. 9223372036854775808
+			}
+			return strconv.FormatFloat(f, 'f', -1, 64)
+		}
+	case 2:
+		return strconv.FormatFloat(f, 'e', 16, 64)
+	}
+	return fmtFloat(f)
+}
+
+func (c Case) pos(i int) int {
+	if i < len(c.Pos) && c.Pos[i] >= 0 && c.Pos[i] <= c.Pad {
+		return c.Pos[i]
+	}
+	return 0
 }
 
 func hasSpace(s string) bool {
@@ -110,10 +140,28 @@ func Check(c Case) (v vcase.Verdict) {
 
 	// (i) through the reader: one line per value, same written unit.
 	var sb strings.Builder
-	for _, b := range c.Bits {
-		sb.WriteString("BenchmarkX 1 " + fmtFloat(math.Float64frombits(b)) + " " + unit)
-		if ob, _, _ := refbench.TidyUnit(c.Other); c.Other != "" && !hasSpace(c.Other) && ob != base && c.Other != unit {
-			sb.WriteString(" 7 " + c.Other)
+	other := ""
+	if ob, _, _ := refbench.TidyUnit(c.Other); c.Other != "" && !hasSpace(c.Other) && ob != base && c.Other != unit {
+		other = c.Other
+	}
+	if c.Pad > 0 {
+		v.Label(fmt.Sprintf("line_with_%d_measurements", c.Pad+1))
+	}
+	nvals := 1 + c.Pad
+	if other != "" {
+		nvals++
+	}
+	for i, b := range c.Bits {
+		sb.WriteString("BenchmarkX 1")
+		for k := 0; k < c.pos(i); k++ {
+			sb.WriteString(" " + strconv.Itoa(k) + " pad" + strconv.Itoa(k))
+		}
+		sb.WriteString(" " + c.spell(math.Float64frombits(b)) + " " + unit)
+		if other != "" {
+			sb.WriteString(" 7 " + other)
+		}
+		for k := c.pos(i); k < c.Pad; k++ {
+			sb.WriteString(" " + strconv.Itoa(k) + " pad" + strconv.Itoa(k))
 		}
 		sb.WriteString("\n")
 	}
@@ -148,11 +196,11 @@ func Check(c Case) (v vcase.Verdict) {
 	var units []string
 	for i, res := range results {
 		f := math.Float64frombits(c.Bits[i])
-		if len(res.Values) < 1 {
-			v.Failf("no values")
+		if len(res.Values) != nvals {
+			v.Failf("line %d has %d measurements, read as %d", i, nvals, len(res.Values))
 			return
 		}
-		got := res.Values[0]
+		got := res.Values[c.pos(i)]
 		want := refbench.MakeValue(f, unit)
 		units = append(units, got.Unit)
 		if got.Unit != want.Unit {
@@ -209,6 +257,41 @@ func Check(c Case) (v vcase.Verdict) {
 		if keep, _ := flt.Apply(cl); keep {
 			v.Failf("filter on a different unit kept %v", cl.Values)
 			return
+		}
+	}
+	// matches taken for all results first and used afterwards: a Match describes its own result
+	for _, name := range []string{unit, base} {
+		flt, err := benchproc.NewFilter(".unit:" + strconv.Quote(name))
+		if err != nil {
+			v.Failf("NewFilter(.unit:%s): %v", strconv.Quote(name), err)
+			return
+		}
+		var ms []benchproc.Match
+		for _, res := range results {
+			m, err := flt.Match(res)
+			if err != nil {
+				v.Failf("Match: %v", err)
+				return
+			}
+			ms = append(ms, m)
+		}
+		for i, res := range results {
+			m := ms[i]
+			for j := range res.Values {
+				if m.Test(j) != (j == c.pos(i)) {
+					v.Failf("filter .unit:%q, result %d of %d (matched before use): Test(%d) = %v, the unit is at index %d of %d", name, i, len(results), j, m.Test(j), c.pos(i), len(res.Values))
+					return
+				}
+			}
+			if m.All() != (nvals == 1) || !m.Any() {
+				v.Failf("filter .unit:%q, result %d with %d measurements, one of them in that unit: All() = %v, Any() = %v", name, i, nvals, m.All(), m.Any())
+				return
+			}
+			cl := res.Clone()
+			if keep := m.Apply(cl); !keep || len(cl.Values) != 1 || cl.Values[0].Unit != base {
+				v.Failf("filter .unit:%q, result %d (matched before use): Apply kept=%v values=%v", name, i, keep, cl.Values)
+				return
+			}
 		}
 	}
 	for _, u := range units {
@@ -302,6 +385,19 @@ func genBits(t *rapid.T) uint64 {
 		return math.Float64bits(1)
 	case 8:
 		return rapid.Uint64().Draw(t, "bits")
+	case 9:
+		// integers around the limits of the 64-bit integer types
+		f := math.Ldexp(1, rapid.SampledFrom([]int{53, 62, 63, 64}).Draw(t, "pow2"))
+		switch rapid.IntRange(0, 2).Draw(t, "edge") {
+		case 1:
+			f = math.Nextafter(f, 0)
+		case 2:
+			f = math.Nextafter(f, math.Inf(1))
+		}
+		if rapid.Bool().Draw(t, "negedge") {
+			f = -f
+		}
+		return math.Float64bits(f)
 	default:
 		return math.Float64bits(rapid.Float64Range(-1e12, 1e12).Draw(t, "ord"))
 	}
@@ -314,6 +410,14 @@ func Gen(t *rapid.T) Case {
 		c.Bits = append(c.Bits, genBits(t))
 	}
 	c.DupMeta = rapid.Bool().Draw(t, "dupmeta")
+	c.Form = rapid.IntRange(0, 2).Draw(t, "form")
+	if vcase.OneIn(t, 6, "padded") {
+		// long lines: the per-measurement bookkeeping works in words of 32 and 64
+		c.Pad = rapid.SampledFrom([]int{1, 5, 29, 30, 31, 32, 33, 61, 62, 63, 64, 65, 100}).Draw(t, "pad")
+		for i := 0; i < nb; i++ {
+			c.Pos = append(c.Pos, rapid.SampledFrom([]int{0, c.Pad, c.Pad / 2, c.Pad - 1, 1}).Draw(t, "pos"))
+		}
+	}
 	if rapid.Bool().Draw(t, "other") {
 		c.Other = genUnit(t, false)
 		ob, _, _ := refbench.TidyUnit(c.Other)
